@@ -340,29 +340,64 @@ func runSetStress(rd StressRound) SObs {
 	return o
 }
 
-func setStressCase(w *casefile.Writer, sc StressCase) {
-	var rounds []string
-	var outs []SObs
-	perr := ""
-	func() {
-		defer func() {
-			if p := recover(); p != nil {
-				perr = fmt.Sprint(p)
+const opSetStress = "c17-setstress"
+
+type setWire struct {
+	Obs []SObs `json:"obs"`
+	Err string `json:"err,omitempty"`
+}
+
+func init() {
+	// in a child process: concurrent map writes are a fatal error of the Go runtime, not a panic
+	storectl.Register(opSetStress, func(_ *storectl.Child, r storectl.Req) (storectl.Resp, error) {
+		var sc StressCase
+		if err := json.Unmarshal(r.Extra, &sc); err != nil {
+			return storectl.Resp{}, err
+		}
+		var sw setWire
+		func() {
+			defer func() {
+				if p := recover(); p != nil {
+					sw.Err = fmt.Sprint(p)
+				}
+			}()
+			for _, rd := range sc.Rounds {
+				sw.Obs = append(sw.Obs, runSetStress(rd))
 			}
 		}()
-		for _, rd := range sc.Rounds {
-			o := runSetStress(rd)
-			outs = append(outs, o)
-			rounds = append(rounds, fmt.Sprintf("(%s, mkSObs %d%%N %d%%N %d%%N %d%%N %d%%N %d%%N)", coqRanges(rd.Ranges),
-				o.Accepted, o.Once, o.Multi, o.Never, o.Positions, o.Bad))
-			w.Dist["stress:setmultiple-calls"] += len(rd.Ranges)
-		}
-	}()
-	if perr != "" {
-		w.Violate("setmultiple-panic", "DocsPositions.SetMultiple panicked under concurrent calls: "+perr, sc)
+		b, _ := json.Marshal(sw)
+		return storectl.Resp{Extra: b}, nil
+	})
+}
+
+func setStressCase(w *casefile.Writer, sc StressCase) {
+	st, err := storectl.Start("")
+	if err != nil {
+		panic(err)
+	}
+	b, _ := json.Marshal(sc)
+	resp, err := st.Call(storectl.Req{Op: opSetStress, Extra: b})
+	if err != nil {
+		st.Kill()
+		st.Close()
+		w.Violate("setmultiple-crash", "the process died while DocsPositions.SetMultiple was called concurrently: "+
+			crashLine(err.Error()), sc)
 		return
 	}
-	w.Add("CSetStress ["+strings.Join(rounds, ";\n      ")+"]", "set-stress", true, sc, outs)
+	st.Close()
+	var sw setWire
+	if err := json.Unmarshal(resp.Extra, &sw); err != nil || sw.Err != "" || len(sw.Obs) != len(sc.Rounds) {
+		w.Violate("setmultiple-panic", "DocsPositions.SetMultiple panicked under concurrent calls: "+sw.Err, sc)
+		return
+	}
+	var rounds []string
+	for i, rd := range sc.Rounds {
+		o := sw.Obs[i]
+		rounds = append(rounds, fmt.Sprintf("(%s, mkSObs %d%%N %d%%N %d%%N %d%%N %d%%N %d%%N)", coqRanges(rd.Ranges),
+			o.Accepted, o.Once, o.Multi, o.Never, o.Positions, o.Bad))
+		w.Dist["stress:setmultiple-calls"] += len(rd.Ranges)
+	}
+	w.Add("CSetStress ["+strings.Join(rounds, ";\n      ")+"]", "set-stress", true, sc, sw.Obs)
 }
 
 // ---------------------------------------------------------------- pipe-stress (whole append path)
@@ -493,7 +528,20 @@ func runPipeStress(sc StressCase) (obs []PObs, err error) {
 		o := PObs{LIDs: after.LIDs - before.LIDs, Positions: after.Positions - before.Positions,
 			DocsTotal: int(after.DocsTotal) - int(before.DocsTotal), AllLIDs: after.AllLIDs - before.AllLIDs}
 		if a != nil {
-			o.DupLIDs = a.VerifC17MultiLIDs(before.LIDs + 1)
+			// IDs of the round holding more than one LID, and LIDs holding an ID no delivery of the round carried
+			delivered := make(map[seq.ID]bool, top)
+			for _, rg := range rd.Ranges {
+				for x := rg[0]; x < rg[1]; x++ {
+					delivered[stressID(rd.Base, x)] = true
+				}
+			}
+			seen := make(map[seq.ID]int, top)
+			for _, id := range a.VerifC17LIDTable(before.LIDs + 1) {
+				seen[id]++
+				if !delivered[id] || seen[id] == 2 {
+					o.DupLIDs++
+				}
+			}
 		}
 		s, e := total("*")
 		if e != nil {
